@@ -142,7 +142,9 @@ Proof. intros [_ [_ T]]. exact (bases_first_gen M order [] T). Qed.
 Lemma assoc_shape M c f a : In a (i_assoc (parse_one M c f)) ->
   exists t, kind_of M f = KColl t
     /\ a_name a = o2m_association_table_name (tablename (c_name c)) (f_name f)
-    /\ a_lfk a = o2m_left_fk_name (tablename (c_name c)) /\ a_rfk a = o2m_right_fk_name (tablename t)
+    /\ (let l0 := o2m_left_fk_name (tablename (c_name c)) in let r0 := o2m_right_fk_name (tablename t) in
+        a_lfk a = (if o2m_fk_names_clash l0 r0 then o2m_left_fk_name_on_clash l0 else l0)
+        /\ a_rfk a = (if o2m_fk_names_clash l0 r0 then o2m_right_fk_name_on_clash r0 else r0))
     /\ a_lpk a = pk_of (dao_of (c_name c)) /\ a_rpk a = pk_of (dao_of t).
 Proof.
   unfold kind_of, parse_one. destruct f as [nm sh ep d]. destruct ep as [b|m e|t]; simpl f_ep.
@@ -159,18 +161,19 @@ Qed.
 Lemma lower_dao_inj a b : py_lower (tablename a) = py_lower (tablename b) -> py_lower a = py_lower b.
 Proof. unfold tablename. rewrite !py_lower_append. apply append_inj_l. Qed.
 
-Theorem assoc_columns_distinct M order : wfM M = true -> F_selfcoll M = true -> (forall c, In c order -> In c M) ->
+Theorem assoc_columns_distinct M order : wfM M = true -> (forall c, In c order -> In c M) ->
   wf_assoc_columns (gen M order) = true.
 Proof.
-  intros W F Ho. unfold wf_assoc_columns, gen; cbn. apply forallb_forall. intros a Ha.
+  intros W Ho. unfold wf_assoc_columns, gen; cbn. apply forallb_forall. intros a Ha.
   apply in_flat_map in Ha. destruct Ha as [c [Hc Ha]]. pose proof (Ho c Hc) as HcM.
   rewrite (table_items_own M c W HcM) in Ha. apply in_flat_map in Ha. destruct Ha as [it [Hit Ha]].
   apply in_map_iff in Hit. destruct Hit as [f [<- Hf]].
-  destruct (assoc_shape M c f a Ha) as [t [K [_ [L [R _]]]]].
-  apply negb_true_iff. apply String.eqb_neq. intros E. rewrite L, R in E.
-  unfold o2m_left_fk_name, o2m_right_fk_name in E. apply append_inj_l in E. apply lower_dao_inj in E.
-  unfold F_selfcoll in F. rewrite forallb_forall in F. specialize (F c HcM). rewrite forallb_forall in F.
-  specialize (F f Hf). rewrite K in F. apply negb_true_iff in F. apply String.eqb_neq in F. congruence.
+  destruct (assoc_shape M c f a Ha) as [t [K [_ [[L R] _]]]].
+  apply negb_true_iff. apply String.eqb_neq. rewrite L, R.
+  destruct (o2m_fk_names_clash _ _) eqn:E.
+  - (* both columns would be named alike: they get different prefixes *)
+    unfold o2m_left_fk_name_on_clash, o2m_right_fk_name_on_clash. cbn. discriminate.
+  - unfold o2m_fk_names_clash in E. now apply String.eqb_neq in E.
 Qed.
 
 (* ---------------------------------------------------------------- polymorphic roots and derived tables *)
@@ -378,24 +381,27 @@ Definition M_assocname : cmodel :=
 
 Ltac refute M := exists M, M; split; [vm_compute; reflexivity|]; split; [apply topo_self; vm_compute; reflexivity|]; vm_compute; auto.
 
-Lemma refuted_selfcoll : exists M order, wfM M = true /\ topo M order /\ wf_assoc_columns (gen M order) = false.
-Proof. refute M_selfcoll. Qed.
+(* still open: C06-g *)
+Lemma refuted_casefold : exists M order, wfM M = true /\ topo M order /\ wf_table_names_unique (gen M order) = false.
+Proof. refute M_casefold. Qed.
+
+(* regression examples.  C06-a (c757abc): the collection of the own class now has two distinct association columns *)
+Lemma fixed_selfcoll : wfM M_selfcoll = true /\ inF M_selfcoll = true /\ wf_assoc_columns (gen M_selfcoll M_selfcoll) = true
+  /\ schema_wf (gen M_selfcoll M_selfcoll) = true /\ model_obs (gen M_selfcoll M_selfcoll) = spec_obs M_selfcoll.
+Proof. repeat split; vm_compute; reflexivity. Qed.
+(* C06-c/d/e/f/h (bd9b8e0): the clashing shapes are refused, as the Spec now says *)
+Definition refused_as_specified (M : cmodel) : Prop :=
+  wfM M = true /\ refused (gen M M) = true /\ model_obs (gen M M) = SL [SZ 2] /\ case_spec M = SL [SZ 2].
+Lemma refused_fkalias : refused_as_specified M_fkalias. Proof. repeat split; vm_compute; reflexivity. Qed.
+Lemma refused_reserved : refused_as_specified M_reserved. Proof. repeat split; vm_compute; reflexivity. Qed.
+Lemma refused_pkname : refused_as_specified M_pkname. Proof. repeat split; vm_compute; reflexivity. Qed.
+Lemma refused_discname : refused_as_specified M_discname. Proof. repeat split; vm_compute; reflexivity. Qed.
+Lemma refused_assocname : refused_as_specified M_assocname. Proof. repeat split; vm_compute; reflexivity. Qed.
+
 (* regression example for the repaired C06-b: a model without any builtin-typed public field is now well-formed *)
 Lemma fixed_nobuiltin : wfM M_nobuiltin = true /\ inF M_nobuiltin = true /\ wf_imports (gen M_nobuiltin M_nobuiltin) = true
   /\ schema_wf (gen M_nobuiltin M_nobuiltin) = true /\ model_obs (gen M_nobuiltin M_nobuiltin) = spec_obs M_nobuiltin.
 Proof. repeat split; vm_compute; reflexivity. Qed.
-Lemma refuted_fkalias : exists M order, wfM M = true /\ topo M order /\ wf_attrs_unique (gen M order) = false.
-Proof. refute M_fkalias. Qed.
-Lemma refuted_reserved : exists M order, wfM M = true /\ topo M order /\ wf_attrs_not_reserved (gen M order) = false.
-Proof. refute M_reserved. Qed.
-Lemma refuted_pkname : exists M order, wfM M = true /\ topo M order /\ wf_attrs_unique (gen M order) = false.
-Proof. refute M_pkname. Qed.
-Lemma refuted_discname : exists M order, wfM M = true /\ topo M order /\ wf_attrs_unique (gen M order) = false.
-Proof. refute M_discname. Qed.
-Lemma refuted_casefold : exists M order, wfM M = true /\ topo M order /\ wf_table_names_unique (gen M order) = false.
-Proof. refute M_casefold. Qed.
-Lemma refuted_assocname : exists M order, wfM M = true /\ topo M order /\ wf_table_names_unique (gen M order) = false.
-Proof. refute M_assocname. Qed.
 
 (* C06-i (repaired by 280300b): ORMatic now also orders a class after the first mapped class of its MRO, so every
    topological order of its inheritance graph is parents-first along parent_table *)
